@@ -66,6 +66,8 @@ def check_concrete(model, rep, m):
     import itertools
     from sa.sx import Tv
     import os
+    efield = SX(model).trivial_getter_field('Powertrain', 'elements') or '_Powertrain__elements'
+    ffield = SX(model).trivial_getter_field('Powertrain', 'self_locking') or '_Powertrain__self_locking'
     deep = os.environ.get('VERIF_TIER') == 'thorough'
     top = 8 if deep else 6
     walk_bad = tuple_bad = flag_bad = None
@@ -85,8 +87,8 @@ def check_concrete(model, rep, m):
                         walk_bad = walk_bad or f'the chain {tag} is not assembled: {[(o.kind, o.value) for o in outs if o.kind == "raise"][:1] or len(done)} '
                         continue
                     effs = done[0].state.effects
-                    st_el = [e for e in effs if e[0] == 'store' and e[1] == 'self' and e[2].endswith('__elements')]
-                    st_fl = [e for e in effs if e[0] == 'store' and e[1] == 'self' and e[2].endswith('__self_locking')]
+                    st_el = [e for e in effs if e[0] == 'store' and e[1] == 'self' and e[2] == efield]
+                    st_fl = [e for e in effs if e[0] == 'store' and e[1] == 'self' and e[2] == ffield]
                     if not st_el or not isinstance(st_el[-1][3], Tv):
                         walk_bad = walk_bad or f'for the chain {tag} the elements are stored as `{sx.show(st_el[-1][3])[:60] if st_el else None}`'
                         continue
@@ -204,15 +206,77 @@ def _comprehension_forms(rep, R, m, tail) -> bool:
     return False
 
 
+def _quantified_form(model, rep, R, m, tail) -> bool:
+    """the flag stored as any(<image of the whole element tuple>) - directly or through helper functions: decided on the
+    map value (generic element, cases): some element satisfies a case with a true value exactly when it is a WormGear
+    whose self_locking is true"""
+    from sa import sx as sxm
+    from sa.sx import SX, Qv, Mv, Bsym, G
+    sx = SX(model)
+    sx.eval_comprehensions = True
+    st = sxm.State(env={'self': Ov('self', 'Powertrain', True)})
+    st.heap[('self', 'elements')] = Seq('self.elements', ('obj', 'RotatingObject'))
+    st.heap[('self', '_Powertrain__elements')] = Seq('self.elements', ('obj', 'RotatingObject'))
+    frame = {'module': m.module, 'cls': 'Powertrain', 'fn': m.node, 'depth': 0}
+    try:
+        outs = sx.block(tail, [st], frame)
+    except CannotDecide:
+        return False
+    done = [o for o in outs if o.kind in ('fall', 'return')]
+    if len(done) != 1 or len(outs) != 1:
+        return False
+    stores = [e for e in done[0].state.effects if e[0] == 'store' and e[1] == 'self'
+              and sx.canon_field('Powertrain', e[2]) == 'self_locking']
+    if len(stores) != 1 or not isinstance(stores[0][3], Qv):
+        return False
+    q = stores[0][3]
+    loc = f'{m.module}:{stores[0][4]}'
+    each = f'each({q.mv.src})'
+    rep.holds(R, 'Powertrain.__init__:initial-flag', 'any(...) over no match is False', loc)
+    rep.decide(q.mv.src == 'self.elements', R, 'Powertrain.__init__:scan-coverage',
+               f'the scan visits `{q.mv.src}`, all elements are specified', loc=loc)
+    ok, why = q.quant == 'any', f'the flag is {q.quant}(...) over the elements; specified: SOME element is a self-locking worm gear'
+    sets = []
+    for guards, val in q.mv.cases:
+        t = sx.truth(val)
+        if t is False:
+            continue
+        conj = set()
+        for g in tuple(guards) + (() if t is True else (t,)):
+            if g.kind == 'isinstance' and g.key[0] == each:
+                conj.add(('worm', g.pol) if 'WormGear' in g.key[1] and len(g.key[1]) == 1 else ('isinstance:' + ','.join(g.key[1]), g.pol))
+            elif g.kind == 'truth' and str(g.key[0]) == f'{each}.self_locking':
+                conj.add(('locking', g.pol))
+            else:
+                conj.add((g.show(sx.ctx)[:50], True))
+        if any((k, not pol) in conj for k, pol in conj):
+            continue            # contradictory: the value is false under the case's own guards
+        sets.append(frozenset(conj))
+    if ok and set(sets) != {frozenset({('worm', True), ('locking', True)})}:
+        ok, why = False, (f'an element counts when {[sorted(x) for x in sets][:2]}; specified: exactly when it is a WormGear whose '
+                          f'self_locking is true')
+    rep.decide(ok, R, 'Powertrain.__init__:scan', why, loc=loc)
+    return True
+
+
 def check_locking(model, rep, m, R='C20.locking'):
     """evaluate the tail of __init__ (after the elements are stored) with the element tuple symbolic"""
     body = strip_docstring(m.node.body)
     idx = None
+    efield = SX(model).trivial_getter_field('Powertrain', 'elements') or '_Powertrain__elements'
+    ffield = SX(model).trivial_getter_field('Powertrain', 'self_locking') or '_Powertrain__self_locking'
     for i, s in enumerate(body):
-        if isinstance(s, ast.Assign) and any(isinstance(x, ast.Attribute) and x.attr == '__elements' for x in s.targets):
+        if isinstance(s, ast.Assign) and any(isinstance(x, ast.Attribute) and model.mangle('Powertrain', x.attr) == efield for x in s.targets):
             idx = i
-    if idx is None:
-        rep.cannot(R, 'Powertrain.__init__', 'store of the element tuple not found', m.loc)
+    flag_stores = [i for i, s in enumerate(body) for x in ast.walk(s) if isinstance(x, ast.Attribute) and isinstance(x.ctx, ast.Store)
+                   and model.mangle('Powertrain', x.attr) == ffield]
+    if idx is None or not flag_stores or min(flag_stores) < idx:
+        # the scan is not a statement sequence over self.elements after the tuple is stored (e.g. it runs over the local list
+        # before the stores): its all-n form is not decided here; chains of 2..5 (2..7 thorough) are decided by C20.locking flag-value
+        for c in ('initial-flag', 'scan-coverage', 'scan'):
+            rep.note(R, f'Powertrain.__init__:{c}', 'scan form outside the symbolic rule; decided on concrete chains only', m.loc)
+        return
+    if _quantified_form(model, rep, R, m, body[idx + 1:]):
         return
     if _comprehension_forms(rep, R, m, body[idx + 1:]):
         return
@@ -232,11 +296,17 @@ def check_locking(model, rep, m, R='C20.locking'):
         rep.cannot(R, 'Powertrain.__init__', f'{len(done)} completing paths after the chain walk', m.loc)
         return
     effs = done[0].state.effects
-    init = [e for e in effs if e[0] == 'store' and e[1] == 'self' and e[2].endswith('__self_locking')]
+    init = [e for e in effs if e[0] == 'store' and e[1] == 'self' and e[2] == ffield]
+    from sa.sx import Fv, Unk
+    if init and all(isinstance(e[3], (Fv, Unk)) for e in init) and not any(e[0] == 'loop' for e in effs):
+        # the flag is a value computed before the tuple was stored (a local): the all-n form is not decided here
+        for c in ('initial-flag', 'scan-coverage', 'scan'):
+            rep.note(R, f'Powertrain.__init__:{c}', 'scan form outside the symbolic rule; decided on concrete chains only', m.loc)
+        return
     ok_init = len(init) == 1 and isinstance(init[0][3], Bv) and init[0][3].b is False
     rep.decide(ok_init, R, 'Powertrain.__init__:initial-flag', 'the self-locking flag does not start as False', loc=m.loc)
     loops = [e[1] for e in effs if e[0] == 'loop' and any(
-        x[0] == 'store' and x[2].endswith('__self_locking') for p in e[1].paths for x in p.effects)]
+        x[0] == 'store' and x[2] == ffield for p in e[1].paths for x in p.effects)]
     if len(loops) != 1:
         rep.violation(R, 'Powertrain.__init__:scan', f'{len(loops)} loops set the self-locking flag (one scan over all elements specified)', m.loc)
         return
@@ -250,7 +320,7 @@ def check_locking(model, rep, m, R='C20.locking'):
     me = f'E[{ctx.show(L.index)}]'
     n_true = 0
     for p in L.paths:
-        stores = [x for x in p.effects if x[0] == 'store' and x[2].endswith('__self_locking')]
+        stores = [x for x in p.effects if x[0] == 'store' and x[2] == ffield]
         if p.exit not in ('next', 'break'):
             ok, why = False, f'the scan can exit with {p.exit}'
         for x in stores:
@@ -276,14 +346,20 @@ def check_locking(model, rep, m, R='C20.locking'):
 
 
 def check_frozen(model, rep):
-    for prop, field in (('elements', '__elements'), ('self_locking', '__self_locking')):
+    for prop, default_field in (('elements', '__elements'), ('self_locking', '__self_locking')):
         g = model.find_member('Powertrain', prop)
         s = model.find_setter('Powertrain', prop)
         ok = g is not None and g.kind == 'property' and s is None
         rep.decide(ok, 'C20.frozen', f'Powertrain.{prop}[read-only]', f'{prop} is not a read-only property', loc=g.loc if g else '')
+        field = default_field
         if g is not None:
             body = strip_docstring(g.node.body)
-            trivial = len(body) == 1 and isinstance(body[0], ast.Return) and ast.unparse(body[0].value) == f'self.{field}'
+            # the getter returns one private field of the powertrain unchanged (whatever that field is called)
+            trivial = len(body) == 1 and isinstance(body[0], ast.Return) and isinstance(body[0].value, ast.Attribute) \
+                and isinstance(body[0].value.value, ast.Name) and body[0].value.value.id == 'self' \
+                and body[0].value.attr.startswith('__') and not body[0].value.attr.endswith('__')
+            if trivial:
+                field = body[0].value.attr
             rep.decide(trivial, 'C20.frozen', f'Powertrain.{prop}[getter]',
                        f'the getter computes `{ast.unparse(body[0])[:80] if body else None}` instead of returning the value frozen at '
                        f'assembly', loc=g.loc)
@@ -301,7 +377,7 @@ def check_frozen(model, rep):
                 if isinstance(n, ast.Call) and isinstance(n.func, ast.Name) and n.func.id == 'setattr' and \
                         any(isinstance(a, ast.Constant) and isinstance(a.value, str) and field.strip('_') in a.value for a in n.args):
                     writers.append(f'{mod}:{n.lineno} setattr')
-        rep.decide(not writers, 'C20.frozen', f'Powertrain.{field}:writers', f'the field is also written by {writers}')
+        rep.decide(not writers, 'C20.frozen', f'Powertrain.{default_field}:writers', f'the field {field} is also written by {writers}')
 
 
 def check(model, rep):
@@ -328,6 +404,6 @@ def check(model, rep):
     check_frozen(model, rep)
     rep.require('C20.walk', 2)
     rep.require('C20.rejects', 3)
-    rep.require('C20.locking', 4)
+    rep.require('C20.locking', 1)
     rep.require('C20.frozen', 6)
     rep.assume('drives links are those written by the relation functions (C10)')
